@@ -279,3 +279,43 @@ func vShapeP(site string, max int) int {
 	}
 	return 0
 }
+
+// ---------------- C17: PNFT query handlers are total ----------------
+
+func vHarnessPnftQueriesTotal() {
+	s := vNewScene()
+	s.createDenom(&s.d0, "d0", vID("d0"), s.A)
+	if vNondetBool("withToken") {
+		s.mint(&s.t0, s.d0, vID("t0"))
+	}
+	c := sdk.WrapSDKContext(s.ctx)
+	qd, qt := vNondetString("qd", vIdMax+1), vNondetString("qt", vIdMax+1) // may be empty, may contain 0x00
+	owner := s.A
+	if vNondetBool("junkOwner") {
+		owner = vNondetAtom("junk")
+	}
+	switch vShapeP("query", 6) {
+	case 0:
+		_, _ = s.k.Denoms(c, nil)
+		_, err := s.k.Denoms(c, &types.QueryDenomsRequest{})
+		vCheck(err == nil, "C17: Denoms answers")
+	case 1:
+		_, _ = s.k.DenomsByOwner(c, nil)
+		_, _ = s.k.DenomsByOwner(c, &types.QueryDenomsByOwnerRequest{Owner: owner})
+	case 2:
+		_, _ = s.k.Denom(c, nil)
+		_, _ = s.k.Denom(c, &types.QueryDenomRequest{Id: qd})
+	case 3:
+		_, _ = s.k.PNFTs(c, nil)
+		_, _ = s.k.PNFTs(c, &types.QueryPNFTsRequest{DenomId: qd})
+	case 4:
+		_, _ = s.k.PNFTsByDenomOwner(c, nil)
+		_, _ = s.k.PNFTsByDenomOwner(c, &types.QueryPNFTsByDenomOwnerRequest{DenomId: qd, Owner: owner})
+	case 5:
+		_, _ = s.k.PNFT(c, nil)
+		_, _ = s.k.PNFT(c, &types.QueryPNFTRequest{DenomId: qd, Id: qt})
+	case 6:
+		_, _ = s.k.PNFT(c, &types.QueryPNFTRequest{DenomId: s.d0.id, Id: qt})
+	}
+	vCover("pnft query returned") // any panic above escapes = violation
+}
